@@ -317,8 +317,11 @@ Definition run_c03 (a : list Z) : list Z :=
   match a with
   | k :: rgb :: prec :: bytes =>
       let b := map zn bytes in
-      if prec =? 2 then BCF32.bc_decode_f32 k (negb (rgb =? 0)) b
-      else if (k =? 11) || (k =? 12) then BCF32.bc6_out prec (k =? 12) b
+      if (prec =? 2) && negb ((k =? 11) || (k =? 12)) then BCF32.bc_decode_f32 k (negb (rgb =? 0)) b
+      else if (k =? 11) || (k =? 12) then
+        (* BC6H: the decoder over the tables as they are in the source now must agree with the one over the frozen
+           specification tables on this block *)
+        if zlist_eqb (concat (bc6_model (k =? 12) b)) (concat (bc6_spec (k =? 12) b)) then BCF32.bc6_out prec (k =? 12) b else [-6]
       else if k =? 10 then
         (* BC7: the implementation-shaped model and the specification-shaped one must agree on the block as well *)
         let m := bc7_model b in
